@@ -3,7 +3,8 @@ from the AST of /repo on every run:
 
   * every module-level (or class-body-level) mutable container of a typedpy module that is mutated inside some
     function (today: serialization/mappers.py `aggregated_mapper_by_class`): for every function that touches it the
-    ordered list of lookups / stores / clears, a store being FINAL iff the stored expression is the local name
+    ordered list of membership tests (`in`: CCheck), subscript reads (`[]`: CRead, raises when the key is gone),
+    one-step lookups (`.get`: CLookup), stores and REMOVALS (`del`, pop, clear: CClear), a store being FINAL iff the stored expression is the local name
     the function returns afterwards and that name is not mentioned in between (anything else - a literal
     placeholder, a partially built value, an unrecognised mutation, the container escaping - is `COther line`);
   * every function decorated with functools.lru_cache / cache (lookup, compute, store of the returned value);
@@ -104,12 +105,12 @@ class _Proto:
             for c in e.comparators:
                 if not _refers(c, name):
                     self.expr(c)
-            self.add("L", e)
+            self.add("K", e)             # the membership test alone
             return
         if isinstance(e, ast.Subscript) and _refers(e.value, name):
             self.expr(e.slice)
             if isinstance(e.ctx, ast.Load):
-                self.add("L", e)
+                self.add("R", e)         # raises KeyError when the key is not (any more) there
             elif isinstance(e.ctx, ast.Del):
                 self.add("C", e)
             else:
@@ -232,10 +233,14 @@ def _final_store(fn, store_line_end, stored):
 
 
 def _collapse(acts):
+    """adjacent atomic lookups are one; local steps BETWEEN a membership test and the read it guards are dropped
+    (the model's CCheck; CRead pair: `if key in cache:` / `return cache[key]` are two statements, two steps)"""
     out = []
     for a in acts:
         if a[0] == "L" and out and out[-1][0] == "L":
             continue
+        if a[0] == "R" and len(out) >= 2 and out[-1][0] == "X" and out[-2][0] == "K":
+            out.pop()
         out.append(a)
     while out and out[-1][0] == "X":
         out.pop()
@@ -329,6 +334,10 @@ def cache_access():
                     for kind, l, e, stored in _collapse(p.acts):
                         if kind == "L":
                             acts.append(("CLookup", "L", l, e))
+                        elif kind == "K":
+                            acts.append(("CCheck", "K", l, e))
+                        elif kind == "R":
+                            acts.append(("CRead", "R", l, e))
                         elif kind == "C":
                             acts.append(("CClear", "C", l, e))
                         elif kind == "X":
